@@ -603,7 +603,9 @@ func orchestrate(args []string) {
 			// else is confirmed the run ends without a verdict (exit 2), never with an alarm
 			fmt.Fprintf(os.Stderr, "verif: %s: discrepancy %s/%s reproduced only %d/5 times in a fresh process: set aside (replay=%s)\n", id, v.Oracle, v.Class, ok, p)
 			unconfirmed++
-			os.Remove(p)
+			if os.Getenv("VERIF_KEEP_UNCONFIRMED") == "" {
+				os.Remove(p)
+			}
 			continue
 		}
 		confirmed = append(confirmed, v)
